@@ -223,8 +223,9 @@ def run_large(ctx):
     rng = ctx.rng
     for shape, n in (("long_chain", 1500), ("big_cluster_plus_isolated", 700)) if ctx.shard == 0 else ():
         if shape == "long_chain":
-            perm = list(range(n)); rng.shuffle(perm)
-            edges = sorted(tuple(sorted((perm[i], perm[i + 1]))) for i in range(n - 1))
+            # each event similar to the next one in input order (consecutive calls of one animal): a walk from the first
+            # event passes through all of them
+            edges = [(i, i + 1) for i in range(n - 1)]
         else:
             edges = [(a, b) for a in range(n - 3) for b in range(a + 1, n - 3)]
         ctx.case(("large", shape), {"n": n, "edges": "generated:" + shape}, nontrivial=True)
